@@ -9,7 +9,7 @@ OPT ?= -O1
 LIBS := -lglog -ltbb -lpthread
 
 E1 := h_tree h_proto_s1 h_proto_s2 h_proto_s3
-E2 := s_map
+E2 := s_map s_storage
 E3 := e_scan e_nvset e_misc
 BINS := $(addprefix $(B)/,$(E1))
 SBINS := $(addprefix $(B)/,$(E2) $(E3))
